@@ -104,6 +104,16 @@ def Val.family : Val → Nat
   | .outpoint _ => 0 | .txin _ => 1 | .txout _ => 2 | .inwit _ => 3 | .wit _ => 4 | .tx _ => 5
   | .header _ => 6 | .block _ => 6 | .ins _ => 7 | .outs _ => 8 | .stacks _ => 9 | .txs _ => 10
 
+/-- `a == b`: CPython calls `b.__eq__(a)` first when `type(b)` is a proper subclass of `type(a)`
+    (mutable variant vs immutable, `CBlock` vs `CBlockHeader`); this only decides which of two
+    *different* serialisation errors escapes.  Unrelated classes: `NotImplemented` twice → `False`. -/
+def eqVals (ma : Bool) (va : Val) (mb : Bool) (vb : Val) : Res Bool :=
+  if va.family ≠ vb.family then .ok false
+  else
+    let reflected := (mb && !ma) || (match va, vb with | .header _, .block _ => true | _, _ => false)
+    if reflected then do let y ← serVal vb; let x ← serVal va; pure (x == y)
+    else do let x ← serVal va; let y ← serVal vb; pure (x == y)
+
 /-! ### merkle root as `CBlock.__init__` computes it (opaque for C09; C15 is about it) -/
 
 def merkleLevel : List Bytes → List Bytes
@@ -383,10 +393,9 @@ def step (s : Store) : Op → Store × Out
   | .pyHash t => observe s t fun v => .bytes (pyHashOf v)
   | .eq a b =>
       match lookup s a, lookup s b with
-      | some (_, va), some (_, vb) =>
+      | some (ea, va), some (eb, vb) =>
         if va.isSeq || vb.isSeq then (bind s none, .na)
-        else if va.family ≠ vb.family then (bind s none, .bool (.ok false))
-        else (bind s none, .bool (do let x ← serVal va; let y ← serVal vb; pure (x == y)))
+        else (bind s none, .bool (eqVals (mutAt ea va) va (mutAt eb vb) vb))
       | _, _ => (bind s none, .badRef)
   | .sighash r _ _ _ =>
       match lookupTx s r with
